@@ -108,6 +108,11 @@ class Figure(Generic):
         class Canvas(object):
             manager = None
         self.canvas = Canvas()
+        self._axes = []
+
+    def get_axes(self):
+        self._calls.add(self._name, "get_axes", (), {})
+        return list(self._axes)
 
 
 class Pyplot(object):
@@ -118,6 +123,7 @@ class Pyplot(object):
         self.calls = Calls()
         self._ax = Axes(self.calls)
         self._fig = Figure(self.calls)
+        self._fig._axes = [self._ax]
 
     def gca(self, *a, **k):
         return self._ax
